@@ -22,12 +22,33 @@ const (
 	vtRetryResult      = 13
 	vtRetryGiveUp      = 14
 	vtBatchNotReady    = 15
+	vtStreamPut        = 20
+	vtStreamGet        = 21
+	vtStreamLeave      = 22
+	vtStreamDetach     = 23
+	vtStreamAttach     = 24
+	vtStreamCommit     = 25
+	vtStreamBlock      = 26
+	vtStreamTimeout    = 27
+	vtStreamCharge     = 28
+	vtStreamPop        = 29
+	vtProcDo           = 30
+	vtProcResult       = 31
+	vtProcOut          = 32
+	vtFinal            = 33
+	vtProcPropagate    = 35
+	vtProcSpawn        = 36
+	vtProcTimeoutTo    = 37
+	vtInputCommit      = 38
 )
 
 // Gate points.
 const (
 	vgBatchAfterUnlock      = 1
 	vgBatchBeforeCommitWait = 2
+	vgStreamAfterPop        = 3
+	vgProcBeforeOut         = 4
+	vgStreamBeforeUnblock   = 5
 )
 
 func verifTrace(kind int, obj any, a, b, c, d int64) {}
@@ -47,3 +68,5 @@ func verifBatchSeq(b *Batch) int64 {
 	}
 	return b.seq
 }
+
+func verifID(x any) int64 { return 0 }
